@@ -1,6 +1,6 @@
 SPECIFICATION Spec
 CONSTANTS
-  TTL = 1
+  TTL = 2
   WithClient = TRUE
   MCQtypes = {"A", "TXT"}
 INVARIANTS TypeOK OnlyListedEnabled ListedEnabledAlways ClientPrecedence MemoryCurrent
